@@ -57,21 +57,36 @@ def api_case(nr, npots, derivs, route, intcore=False):
     out = Sink()
     core.INT_TAGS = intcore
     try:
+      second = None
       if route == "class":
-        DLPoly_PairTabulation(pots, cutoff, nr).write(out)
+        tab = DLPoly_PairTabulation(pots, cutoff, nr)
+        tab.write(out)
+        # the same tabulation object written a second time gives the same table
+        out2 = Sink()
+        tab.write(out2)
+        second = out2.getvalue()
       else:
         ap.writePotentials("DL_POLY", pots, cutoff, nr, out)
     finally:
       core.INT_TAGS = False
-    return out.getvalue()
+    return out.getvalue(), second
 
   def build(path, wrong=False):
     if path.exc is not None:
       raise Structural("exception", "%s: %s" % (type(path.exc).__name__, path.exc))
+    first, second = path.value
+    vcs = build_text(path, first, wrong, "")
+    if second is not None and not wrong:
+      for v in build_text(path, second, False, "second-write-"):
+        v.name = "second write/" + v.name
+        vcs.append(v)
+    return vcs
+
+  def build_text(path, text, wrong, kp):
     try:
-      t = pairtables.read_dlpoly_table(path.value)
+      t = pairtables.read_dlpoly_table(text)
     except pairtables.FormatError as e:
-      raise Structural("format", "DL_POLY TABLE reader rejects the file: %s" % e)
+      raise Structural(kp + "format", "DL_POLY TABLE reader rejects the file%s: %s" % (" written second from the same object" if kp else "", e))
     c = z3.Real("cutoff")
     delpot = c / rv(nr - 4)
     if t["ngrid"] != nr:
